@@ -259,7 +259,7 @@ def ch_pair(ctx, cases=None) -> Channel:
         for st_ in ("bbb", "tears", "syn1", "syn2", "syn3", "syn4", "syn5", "syn7"):
             t0 = next(iter(segchecks.tracks(app, st_).values()))
             ref[st_] = t0.ref_dur / t0.ref_ts
-        for stream, url, t1, t2, kind, opts, defaults in (cases or gen_pairs(ctx, rng, ctx.scale(48, 2000), ref)):
+        for stream, url, t1, t2, kind, opts, defaults in (cases or gen_pairs(ctx, rng, ctx.scale(64, 2000), ref)):
             ch.evaluations += 1
             ch.count(f"delta:{kind}")
             set_stream_defaults(app, stream, defaults)
